@@ -80,10 +80,16 @@ class Node:
         self.p = None
         self.log_path = os.path.join(wd, self.name + ".log")
         self.stopped = False
+        self.advertise = None      # address other nodes are told to use (a link-fabric proxy port), default: the gRPC port
+        self.after_start = None    # callback(node) once the process exists (the link fabric learns the new pid)
 
     @property
     def grpc_addr(self):
         return "127.0.0.1:%d" % self.grpc_port
+
+    @property
+    def raft_addr(self):
+        return self.advertise or self.grpc_addr
 
     def start(self, wait=True, timeout=30):
         e = {k: v for k, v in os.environ.items() if not k.startswith("RNACOS_")}
@@ -93,7 +99,7 @@ class Node:
             "RNACOS_GRPC_PORT": str(self.grpc_port),
             "RNACOS_HTTP_CONSOLE_PORT": str(self.console_port),
             "RNACOS_RAFT_NODE_ID": str(self.id),
-            "RNACOS_RAFT_NODE_ADDR": self.grpc_addr,
+            "RNACOS_RAFT_NODE_ADDR": self.raft_addr,
             "RNACOS_RAFT_AUTO_INIT": "true" if self.auto_init else "false",
             "RNACOS_CONSOLE_ENABLE_CAPTCHA": "false",
             "RNACOS_NAMING_PERPETUAL_INSTANCE_PROBE_INTERVAL_SECOND": "0",
@@ -106,6 +112,8 @@ class Node:
         self.logf = open(self.log_path, "ab")
         self.p = subprocess.Popen([self.binary, "-e", "/nonexistent-env-file"], env=e, stdout=self.logf, stderr=self.logf, cwd=self.dir)
         self.stopped = False
+        if self.after_start is not None:
+            self.after_start(self)
         if wait:
             self.wait_ready(timeout)
         return self
@@ -212,13 +220,25 @@ class Node:
 
 
 class Cluster:
-    def __init__(self, wd, n=3, env=None):
+    def __init__(self, wd, n=3, env=None, fabric=False):
+        """fabric=True: node-to-node traffic runs through lib/linkproxy.LinkFabric (self.fabric) so that single directed
+        links can be stalled and released; clients still talk to the nodes' own ports"""
         self.wd = wd
         self.nodes = []
+        self.fabric = None
         first = Node(wd, 1, env=env, auto_init=True)
         self.nodes.append(first)
         for i in range(2, n + 1):
             self.nodes.append(Node(wd, i, env=env, join=first.grpc_addr, auto_init=False))
+        if fabric:
+            import linkproxy
+            self.fabric = linkproxy.FabricProcess({nd.id: nd.grpc_port for nd in self.nodes}).start()
+            for nd in self.nodes:
+                nd.advertise = self.fabric.addr(nd.id)
+                nd.after_start = lambda _n: self.fabric is not None and self.fabric.set_pids(
+                    {x.id: (x.p.pid if x.p is not None and x.p.poll() is None else None) for x in self.nodes})
+            for nd in self.nodes[1:]:
+                nd.join = first.raft_addr
 
     def start(self, settle=8):
         self.nodes[0].start()
@@ -251,3 +271,6 @@ class Cluster:
     def kill_all(self):
         for n in self.nodes:
             n.kill()
+        if self.fabric is not None:
+            self.fabric.close()
+            self.fabric = None
